@@ -123,8 +123,12 @@ func parseNumber(buf []byte) (id, val uint64) {
 		floatTag |= uint64(FloatOverflowedInteger)
 	}
 
-	if pos > 1 && buf[0] == '0' && isNumberRune[buf[1]]&isFloatOnlyFlag == 0 {
-		// Float can only have have a leading 0 when followed by a period.
+	first := 0
+	if buf[0] == '-' {
+		first = 1
+	}
+	if pos > first+1 && buf[first] == '0' && isNumberRune[buf[first+1]]&isFloatOnlyFlag == 0 {
+		// Float can only have have a leading 0 (after an optional minus) when followed by a period or exponent.
 		return 0, 0
 	}
 	f64, err := strconv.ParseFloat(unsafeBytesToString(buf[:pos]), 64)
